@@ -15,6 +15,7 @@ pub const A_EARLIEST: u32 = 16;
 pub const A_OV: u32 = 32;
 pub const A_ISMATCH: u32 = 64;
 pub const A_OVANCH: u32 = 128;
+pub const A_RECIPE: u32 = 256;
 
 pub fn parse_aspects(s: &str) -> u32 {
     let mut a = 0;
@@ -28,6 +29,7 @@ pub fn parse_aspects(s: &str) -> u32 {
             "ov" => A_OV,
             "ismatch" => A_ISMATCH,
             "ovanch" => A_OVANCH,
+            "recipe" => A_RECIPE,
             "" => 0,
             x => panic!("aspect {}", x),
         };
@@ -50,7 +52,7 @@ pub fn cfg_set(name: &str, mk: Kind, ci: bool, thorough: bool) -> Vec<Cfg> {
             for (dd, bc) in [(None, true), (Some(0), false), (Some(7), true), (Some(1), false), (Some(3), true)] {
                 v.push(c(LowContig, B, false, dd, bc));
             }
-            for (sk, bc) in [(U, true), (B, false), (A, true), (B, true)] {
+            for (sk, bc) in [(U, true), (B, false), (A, true), (B, true), (A, false), (U, false)] {
                 v.push(c(LowDfa, sk, false, None, bc));
             }
             if thorough {
@@ -58,7 +60,6 @@ pub fn cfg_set(name: &str, mk: Kind, ci: bool, thorough: bool) -> Vec<Cfg> {
                 v.push(c(LowContig, B, true, Some(2), true));
                 v.push(c(LowContig, B, false, Some(0), true));
                 v.push(c(LowDfa, U, true, None, false));
-                v.push(c(LowDfa, A, false, None, false));
             }
             if name == "all" {
                 for (e, sk) in [(TopAuto, U), (TopAuto, B), (TopContig, B), (TopDfa, A), (TopNonContig, U), (TopAuto, A)] {
@@ -236,6 +237,25 @@ pub fn check_aspect_w(ctx: &Ctx, cfg: &Cfg, b: &Built, aspect: &str, hay: &[u8],
             }
             ok
         }
+        "recipe" => {
+            // C16: the caller-written search loop of the trait documentation, run on the sub-slice
+            // hay[s..e] through the low-level API, returns what the built-in search returns
+            let sub = &hay[s..e];
+            let manual = match crate::eng::with_low(b, &mut |a| guard(|| crate::eng::recipe_find(a, sub))) {
+                Some(m) => m,
+                None => return true,
+            };
+            let got = guard(|| b.try_find(sub, 0, sub.len(), false, false));
+            let ok = match (&manual, &got) {
+                (Ok(Ok(m)), Ok(Ok(g))) => m == g,
+                (Ok(Err(_)), Ok(Err(_))) => true,
+                _ => false,
+            };
+            if !ok {
+                report_fail(ctx, cfg, aspect, hay, s, e, anch, &format!("the documented manual loop's result {:?}", manual), &format!("{:?}", got));
+            }
+            ok
+        }
         x => panic!("aspect {}", x),
     }
 }
@@ -395,6 +415,10 @@ pub fn check_hay(ctx: &Ctx, built: &[(Cfg, Built)], hay: &[u8], aspects: u32) {
                     check_aspect_w(ctx, cfg, b, "ismatch", hay, s, e, anch, &mut w);
                     ctx.rep.case(any);
                 }
+                if aspects & A_RECIPE != 0 && !anch && s <= e {
+                    check_aspect_w(ctx, cfg, b, "recipe", hay, s, e, anch, &mut w);
+                    ctx.rep.case(any);
+                }
                 if ctx.kind == Kind::Std && ((aspects & A_OV != 0 && !anch) || (aspects & A_OVANCH != 0 && anch)) {
                     check_aspect_w(ctx, cfg, b, "ov", hay, s, e, anch, &mut w);
                     ctx.rep.case(any);
@@ -502,8 +526,63 @@ pub fn family(name: &str, thorough: bool, seed: usize) -> Family {
             }
             Family { name: name.into(), lists, hays }
         }
+        // ASCII case-insensitive lists of 4..10 patterns in which letterless patterns (digits,
+        // punctuation, optionally one of >= 256 bytes) precede or follow lettered ones: the
+        // prefilter builders see letters only after they may have given up (per-list haystacks
+        // contain every pattern in both cases)
+        "cimix" => {
+            let mut rng = gen::Rng(0xC1C1 + seed as u64);
+            let plain: Vec<Vec<u8>> = vec![b"12".to_vec(), b"34".to_vec(), b"56".to_vec(), b"78".to_vec(), b"90".to_vec(), b"#$".to_vec(), b"%&*".to_vec(), b"(+)".to_vec(), b"=-".to_vec(), b"~^".to_vec()];
+            let mut lists = vec![];
+            for i in 0..(if thorough { 1500 } else { 160 }) {
+                let mut l: Vec<Vec<u8>> = vec![];
+                if i % 7 == 3 {
+                    l.push((0..(256 + rng.below(10))).map(|k| b"0123456789"[k % 10]).collect());
+                }
+                let k1 = rng.below(7);
+                let mut pl = plain.clone();
+                for _ in 0..k1 {
+                    let j = rng.below(pl.len());
+                    l.push(pl.remove(j));
+                }
+                let k2 = 1 + rng.below(3);
+                for _ in 0..k2 {
+                    let n = 2 + rng.below(6);
+                    l.push(rng.bytes(b"abkKmSzZ@[`{", n));
+                }
+                if i % 5 == 4 {
+                    let j = rng.below(l.len());
+                    let x = l.remove(j);
+                    l.insert(0, x);
+                }
+                lists.push(l);
+            }
+            Family { name: name.into(), lists, hays: vec![b"".to_vec(), b"needle".to_vec()] }
+        }
         x => panic!("family {}", x),
     }
+}
+
+/// per-list haystacks for `cimix`: every pattern in both letter cases, separated and adjacent
+pub fn mix_hays(pats: &[Vec<u8>]) -> Vec<Vec<u8>> {
+    let swap = |p: &Vec<u8>| -> Vec<u8> { p.iter().map(|&b| if b.is_ascii_alphabetic() { b ^ 0x20 } else { b }).collect() };
+    let mut all = vec![b' '];
+    let mut adj = vec![];
+    let mut v = vec![];
+    for p in pats.iter().filter(|p| p.len() <= 16) {
+        all.extend(swap(p));
+        all.push(b' ');
+        all.extend(p.iter());
+        all.push(b' ');
+        adj.extend(swap(p));
+        let mut one = b"xx ".to_vec();
+        one.extend(swap(p));
+        one.extend(b" yy");
+        v.push(one);
+    }
+    v.push(all);
+    v.push(adj);
+    v
 }
 
 /// haystacks that walk the trie of this particular list: every pattern prefix followed by every
@@ -594,7 +673,7 @@ pub fn run(args: &Args) -> Report {
                             }
                         }
                     }
-                    let mut derived = if fname == "deep" || fname == "wide" || fname == "bytes" || fname == "many" || fname == "ci" { derived_hays(pats) } else { vec![] };
+                    let mut derived = if fname == "cimix" { mix_hays(pats) } else if fname == "deep" || fname == "wide" || fname == "bytes" || fname == "many" || fname == "ci" { derived_hays(pats) } else { vec![] };
                     if ci {
                         // the other letter case at alternating positions
                         let toggled: Vec<Vec<u8>> = derived.iter().map(|h| h.iter().enumerate().map(|(i, &b)| if i % 2 == 0 && b.is_ascii_alphabetic() { b ^ 0x20 } else { b }).collect()).collect();
